@@ -67,14 +67,16 @@ type c25Rec struct {
 	closedSeen,
 	closedEmitted,
 	osMode bool
-	nreq    int
-	foreign int
-	infra   string
-	fsys    *FS
-	reqHave map[int]bool
-	jmu     sync.Mutex
-	jitter  *rand.Rand
-	faults  int // injected faults that fired
+	nreq       int
+	foreign    int
+	infra      string
+	stuckStack string
+	panicked   string
+	fsys       *FS
+	reqHave    map[int]bool
+	jmu        sync.Mutex
+	jitter     *rand.Rand
+	faults     int // injected faults that fired
 }
 
 // sleepJitter widens race windows; only called where fs.go holds no lock.
@@ -155,6 +157,10 @@ type c25MemFS struct {
 	// fault injection (0: off): a Seek(0, SeekStart) of a big-file reader fails for one handle in
 	// faultSeek; a Read of a file's header during the miss phase fails for one handle in faultHdr
 	faultSeek, faultHdr int
+	// faultReopen: every faultReopen-th Open issued by a request that already holds its fsFile
+	// (fsFile.bigFileReader re-opening ff.filename because the descriptor pool is empty) fails
+	faultReopen int
+	reopens     int
 }
 
 var errC25Injected = errors.New("injected I/O error")
@@ -215,6 +221,21 @@ type c25MemFile struct {
 
 func (m *c25MemFS) Open(name string) (fs.File, error) {
 	m.rec.sleepJitter()
+	if m.faultReopen > 0 {
+		m.rec.mu.Lock()
+		fail := false
+		if m.rec.reqHave[m.rec.reqOfLocked()] {
+			m.reopens++
+			fail = m.reopens%m.faultReopen == 0
+			if fail {
+				m.rec.faults++
+			}
+		}
+		m.rec.mu.Unlock()
+		if fail {
+			return nil, &fs.PathError{Op: "open", Path: name, Err: errC25Injected}
+		}
+	}
 	if !fs.ValidPath(name) {
 		return nil, &fs.PathError{Op: "open", Path: name, Err: fs.ErrInvalid}
 	}
@@ -543,19 +564,21 @@ func (r *c25Rec) hook(ev string, o1, o2 any, a, b int) {
 // ---------------------------------------------------------------- one execution
 
 type c25Cfg struct {
-	mode      string // "mem" | "os"
-	skipCache bool
-	compress  bool
-	stopMode  int // 0 CleanStop at a random point, 1 cm.Close() at a random point, 2 both, 3 CleanStop only at the end
-	clients   int
-	reqs      int
-	burst     bool // every client starts with the same target at the same moment
-	faultSeek int  // mem: see c25MemFS
-	faultHdr  int
-	badZRoot  bool   // os: CompressRoot below a regular file (MkdirAll fails)
-	forceKind int    // >= 0: every request is of this kind (see c25Client)
-	first     int    // >= 0: burst target
-	gated     string // lock-step scenario: the order in which closer (C) and last readers (R) get cacheLock
+	mode        string // "mem" | "os"
+	skipCache   bool
+	compress    bool
+	stopMode    int // 0 CleanStop at a random point, 1 cm.Close() at a random point, 2 both, 3 CleanStop only at the end
+	clients     int
+	reqs        int
+	burst       bool // every client starts with the same target at the same moment
+	faultSeek   int  // mem: see c25MemFS
+	faultHdr    int
+	faultReopen int    // mem: see c25MemFS
+	rmFiles     bool   // os: the big files are removed from disk while they are served (re-opening fails)
+	badZRoot    bool   // os: CompressRoot below a regular file (MkdirAll fails)
+	forceKind   int    // >= 0: every request is of this kind (see c25Client)
+	first       int    // >= 0: burst target
+	gated       string // lock-step scenario: the order in which closer (C) and last readers (R) get cacheLock
 }
 
 type c25Target struct {
@@ -595,6 +618,7 @@ func c25OpenFDs(base string) []string {
 }
 
 type c25Result struct {
+	stuckStack       string
 	stuck            bool // the cleaner goroutine did not terminate: no quiescence, no leak verdicts
 	gateOK           bool
 	nontrivial       bool
@@ -623,7 +647,7 @@ func c25Setup(t *testing.T, rng *rand.Rand, trNo int, cfg c25Cfg, baseDir string
 	var root string
 	if cfg.mode == "mem" {
 		m := &c25MemFS{rec: rec, files: tree, dirs: map[string][]string{}, mtime: time.Now().Add(-time.Hour).Truncate(time.Second),
-			faultSeek: cfg.faultSeek, faultHdr: cfg.faultHdr}
+			faultSeek: cfg.faultSeek, faultHdr: cfg.faultHdr, faultReopen: cfg.faultReopen}
 		m.dirs["."] = nil
 		for name := range tree {
 			dir := "."
@@ -675,6 +699,19 @@ func c25Setup(t *testing.T, rng *rand.Rand, trNo int, cfg c25Cfg, baseDir string
 		}
 		rec.greq[vfGid()] = id
 		rec.mu.Unlock()
+		defer func() {
+			// a panic of the real handler (fs.go: "bug: fsFile.readersCount < 0") must not take the
+			// driver down: it is recorded and judged as what it is
+			if pv := recover(); pv != nil {
+				rec.mu.Lock()
+				if rec.panicked == "" {
+					rec.panicked = fmt.Sprintf("%s: %v", p, pv)
+				}
+				rec.mu.Unlock()
+				ctx.Response.Reset()
+				ctx.Error("handler panicked", StatusInternalServerError)
+			}
+		}()
 		inner(ctx)
 	}
 	return rec, fh, root, tree, cleanStop
@@ -791,12 +828,12 @@ func c25RunGated(t *testing.T, rng *rand.Rand, tw *vfTraceWriter, trNo int, cfg 
 	parked := func(n int, subs ...string) {
 		subs = append(subs, "[sync.Mutex.Lock")
 		dl := time.Now().Add(20 * time.Second)
-		for c25Goroutines(subs...) < n {
+		for pause := 100 * time.Microsecond; c25Goroutines(subs...) < n; pause = min(2*pause, 10*time.Millisecond) {
 			if time.Now().After(dl) {
 				gateOK = false
 				return
 			}
-			time.Sleep(200 * time.Microsecond)
+			time.Sleep(pause)
 		}
 	}
 	cmi, _ := rec.cm.(cacheManager)
@@ -848,6 +885,120 @@ func c25RunGated(t *testing.T, rng *rand.Rand, tw *vfTraceWriter, trNo int, cfg 
 	return res
 }
 
+// c25SlowWriter receives a response body a few hundred bytes at a time, with pauses: the response
+// keeps its reader (and its reference on the fsFile) for a while.
+type c25SlowWriter struct {
+	buf  bytes.Buffer
+	rng  *rand.Rand
+	slow bool
+}
+
+func (w *c25SlowWriter) Write(p []byte) (int, error) {
+	if w.slow && w.rng.Intn(3) == 0 {
+		time.Sleep(time.Duration(100+w.rng.Intn(900)) * time.Microsecond)
+	}
+	return w.buf.Write(p)
+}
+
+// c25RunDirect drives the handler without a Server: every client goroutine builds a RequestCtx,
+// calls the handler and then writes the response body out itself (Response.BodyWriteTo streams
+// the file and closes the reader).  Used for the fault dimension "re-opening an already cached
+// file fails" (fs.FS whose Open fails for a request that already holds its fsFile; files removed
+// from disk on the default filesystem), where a broken reference count makes fs.go panic: in
+// goroutines owned by the driver that panic is recovered, recorded and judged.
+func c25RunDirect(t *testing.T, rng *rand.Rand, tw *vfTraceWriter, trNo int, cfg c25Cfg, baseDir string) c25Result {
+	const cacheDur = 4 * time.Millisecond
+	t0 := time.Now()
+	rec, fh, root, tree, cleanStop := c25Setup(t, rng, trNo, cfg, baseDir, cacheDur)
+	var bodyErr atomic.Value
+	var wg sync.WaitGroup
+	targets := []string{"/big.txt", "/huge.txt", "/dir/in.txt", "/edge8193.txt", "/tiny.txt", "/idx/"}
+	first := targets[rng.Intn(3)]
+	gate := make(chan struct{})
+	for c := 0; c < cfg.clients; c++ {
+		wg.Add(1)
+		crng := rand.New(rand.NewSource(rng.Int63()))
+		go func() {
+			defer wg.Done()
+			<-gate
+			for i := 0; i < cfg.reqs; i++ {
+				p := targets[crng.Intn(len(targets))]
+				if i == 0 || crng.Intn(2) == 0 {
+					p = first // several responses in flight on one cache entry
+				}
+				var req Request
+				req.SetRequestURI(p)
+				req.Header.SetHost("h")
+				switch crng.Intn(6) {
+				case 0:
+					req.Header.SetMethod("HEAD")
+				case 1:
+					req.Header.Set("Range", []string{"bytes=10-20", "bytes=999999-", "bytes=5-2", "lines=1-2"}[crng.Intn(4)])
+				}
+				ctx := &RequestCtx{}
+				ctx.Init(&req, nil, c25NullLogger{})
+				func() {
+					defer func() {
+						if pv := recover(); pv != nil {
+							rec.mu.Lock()
+							if rec.panicked == "" {
+								rec.panicked = fmt.Sprintf("%s (writing the response): %v", p, pv)
+							}
+							rec.mu.Unlock()
+						}
+					}()
+					fh(ctx)
+					w := &c25SlowWriter{rng: crng, slow: crng.Intn(2) == 0}
+					_ = ctx.Response.BodyWriteTo(w)
+				}()
+			}
+		}()
+	}
+	close(gate)
+	if cfg.rmFiles && root != "" {
+		d := time.Duration(rng.Intn(int(4 * time.Millisecond)))
+		go func() {
+			time.Sleep(d)
+			for _, n := range []string{"big.txt", "huge.txt", "edge8193.txt", "dir/in.txt"} {
+				_ = os.Remove(filepath.Join(root, filepath.FromSlash(n)))
+			}
+		}()
+	}
+	var stopOnce sync.Once
+	doStop := func() {
+		stopOnce.Do(func() {
+			if cfg.stopMode == 1 {
+				c25CloseManager(rec)
+			}
+			close(cleanStop)
+		})
+	}
+	if cfg.stopMode != 3 {
+		d := time.Duration(rng.Intn(int(20 * time.Millisecond)))
+		go func() {
+			time.Sleep(d)
+			doStop()
+		}()
+	}
+	wg.Wait()
+	doStop()
+	_ = tree
+	return c25Finish(rec, cfg, tw, trNo, root, t0, &bodyErr)
+}
+
+// c25GoroutineDump returns the stacks of the goroutines containing sub (diagnostics only).
+func c25GoroutineDump(sub string) string {
+	buf := make([]byte, 1<<22)
+	n := runtime.Stack(buf, true)
+	var out []string
+	for _, g := range strings.Split(string(buf[:n]), "\n\n") {
+		if strings.Contains(g, sub) {
+			out = append(out, g)
+		}
+	}
+	return strings.Join(out, "\n--\n")
+}
+
 // c25Goroutines reports how many goroutines have a stack containing every given substring.
 func c25Goroutines(subs ...string) int {
 	buf := make([]byte, 1<<22)
@@ -876,12 +1027,14 @@ func c25Finish(rec *c25Rec, cfg c25Cfg, tw *vfTraceWriter, trNo int, root string
 	// that already happened are judged all the same, and the test stops after this execution.
 	stuck := false
 	deadline := time.Now().Add(45 * time.Second)
-	for c25Goroutines("handleCleanCache") > rec.cleaners {
+	// (goroutine dumps stop the world: poll with a growing pause)
+	for pause := 200 * time.Microsecond; c25Goroutines("handleCleanCache") > rec.cleaners; pause = min(2*pause, 50*time.Millisecond) {
 		if time.Now().After(deadline) {
 			stuck = true
+			rec.stuckStack = c25GoroutineDump("handleCleanCache")
 			break
 		}
-		time.Sleep(time.Millisecond)
+		time.Sleep(pause)
 	}
 	rec.mu.Lock()
 	if !stuck && !cfg.skipCache && rec.cm != nil && !rec.closedSeen {
@@ -906,7 +1059,7 @@ func c25Finish(rec *c25Rec, cfg c25Cfg, tw *vfTraceWriter, trNo int, root string
 	}
 	tw.Emit(vfRec{"ev": "end"})
 
-	res := c25Result{events: len(evs), requests: nr, faults: rec.faults, dur: time.Since(t0), stuck: stuck}
+	res := c25Result{events: len(evs), requests: nr, faults: rec.faults, dur: time.Since(t0), stuck: stuck, stuckStack: rec.stuckStack}
 	// non-trivial: a duplicate open was discarded, a file was evicted / the manager closed while a
 	// response was still reading it, a pooled reader was reused, the last reader released a file
 	// of a closed manager, or an injected fault fired
@@ -928,6 +1081,9 @@ func c25Finish(rec *c25Rec, cfg c25Cfg, tw *vfTraceWriter, trNo int, root string
 	}
 	fail := func(k, d string) c25Result { res.key, res.detail = k, d; return res }
 	tag := fmt.Sprintf("%s skip=%v", cfg.mode, cfg.skipCache)
+	if rec.panicked != "" {
+		return fail("panic:"+tag, "the FS handler panicked while serving "+rec.panicked)
+	}
 	// direct checks, independent of the specification
 	for _, h := range rec.handles {
 		switch n := h.closes.Load(); {
@@ -1036,10 +1192,24 @@ func c25Client(rng *rand.Rand, ln *fasthttputil.InmemoryListener, cfg c25Cfg, tr
 		case 9:
 			hdr = "If-Modified-Since: " + time.Now().Add(time.Hour).UTC().Format("Mon, 02 Jan 2006 15:04:05 GMT") + "\r\n"
 		case 10:
-			if tg.size > 10 {
+			// Range requests: satisfiable, unsatisfiable and malformed (416 must give the file back too)
+			switch v := rng.Intn(8); {
+			case tg.size <= 10:
+				hdr = "Range: bytes=7-3\r\n"
+			case v < 3:
 				wantFrom = rng.Intn(tg.size - 1)
 				wantTo = wantFrom + rng.Intn(tg.size-wantFrom)
 				hdr = fmt.Sprintf("Range: bytes=%d-%d\r\n", wantFrom, wantTo)
+			case v == 3:
+				hdr = fmt.Sprintf("Range: bytes=%d-\r\n", tg.size+rng.Intn(1000)) // starts behind the end
+			case v == 4:
+				hdr = "Range: bytes=5-2\r\n" // end before start
+			case v == 5:
+				hdr = "Range: lines=1-2\r\n" // other unit
+			case v == 6:
+				hdr = "Range: bytes=-0\r\n" // empty suffix
+			default:
+				hdr = "Range: bytes=abc\r\n" // not a range at all
 			}
 		case 11:
 			hdr = "Accept-Encoding: gzip\r\n"
@@ -1089,7 +1259,7 @@ func c25Client(rng *rand.Rand, ln *fasthttputil.InmemoryListener, cfg c25Cfg, tr
 			}
 		}
 		if len(body) < cl {
-			if abortAt < 0 && cfg.faultSeek == 0 && cfg.faultHdr == 0 {
+			if abortAt < 0 && cfg.faultSeek == 0 && cfg.faultHdr == 0 && cfg.faultReopen == 0 && !cfg.rmFiles {
 				bodyErr.CompareAndSwap(nil, fmt.Sprintf("%s %s (%s): status %d, Content-Length %d but only %d body bytes arrived (%v): the response lost its file",
 					method, tg.path, strings.TrimSpace(hdr), code, cl, len(body), rerr))
 			}
@@ -1129,6 +1299,12 @@ func c25RandomFaults(rng *rand.Rand, cfg *c25Cfg) {
 		if cfg.mode == "mem" {
 			cfg.faultHdr = 3
 		}
+	case 2:
+		if cfg.mode == "mem" {
+			cfg.faultReopen = 2 + rng.Intn(2)
+		} else {
+			cfg.rmFiles = true
+		}
 	}
 }
 
@@ -1152,7 +1328,7 @@ func TestVerifC25FSCache(t *testing.T) {
 	kinds := map[string]int{}
 	ngated := vfEnvInt("VERIF_C25_GATED", 8)
 	orders := []string{"CR", "CRR", "RCR", "CRRR", "RCRR", "RC"}
-	gates, stuckAt := 0, 0
+	gates, stuckAt, stuckStack := 0, 0, ""
 	for n := 1; n <= ngated+ntr; n++ {
 		i := n - ngated // number of the ordinary execution
 		if n <= ngated {
@@ -1181,7 +1357,7 @@ func TestVerifC25FSCache(t *testing.T) {
 				vfSample(vfRec{"trace": n, "cfg": fmt.Sprintf("%+v", gcfg), "events": res.events, "requests": res.requests, "gate": res.gateOK})
 			}
 			if res.stuck {
-				stuckAt, ngated, ntr = n, n, 0
+				stuckAt, ngated, ntr, stuckStack = n, n, 0, res.stuckStack
 				break
 			}
 			continue
@@ -1199,13 +1375,22 @@ func TestVerifC25FSCache(t *testing.T) {
 			cfg.skipCache, cfg.badZRoot, cfg.compress, cfg.forceKind = false, true, true, 11
 		case 2: // mem
 			cfg.skipCache, cfg.faultHdr, cfg.burst, cfg.first = false, 2, true, 5
+		case 3: // os: re-opening a cached big file fails because it was removed
+			cfg.skipCache, cfg.rmFiles, cfg.burst, cfg.first = false, true, true, 4
 		case 4: // mem
 			cfg.skipCache, cfg.faultSeek, cfg.burst, cfg.first = false, 3, true, 4
+		case 6: // mem: re-opening a cached big file fails
+			cfg.skipCache, cfg.faultReopen, cfg.burst, cfg.first = false, 2, true, 3
 		}
-		if i > 4 {
+		if i > 6 {
 			c25RandomFaults(rng, &cfg)
 		}
-		res := c25RunOne(t, rng, tw, n, cfg, baseDir)
+		var res c25Result
+		if cfg.faultReopen > 0 || cfg.rmFiles {
+			res = c25RunDirect(t, rng, tw, n, cfg, baseDir)
+		} else {
+			res = c25RunOne(t, rng, tw, n, cfg, baseDir)
+		}
 		runtime.GC()
 		total += res.events
 		reqs += res.requests
@@ -1230,13 +1415,13 @@ func TestVerifC25FSCache(t *testing.T) {
 			vfSample(vfRec{"trace": i, "cfg": fmt.Sprintf("%+v", cfg), "events": res.events, "requests": res.requests})
 		}
 		if res.stuck {
-			stuckAt, ntr = n, i
+			stuckAt, ntr, stuckStack = n, i, res.stuckStack
 			break
 		}
 	}
 	tw.Close()
 	if stuckAt > 0 && nfail == 0 {
-		vfInfra(fmt.Sprintf("execution %d: the cache cleaner goroutine was still running 45s after its manager was closed and nothing else was observed", stuckAt))
+		vfInfra(fmt.Sprintf("execution %d: the cache cleaner goroutine was still running 45s after its manager was closed and nothing else was observed; cleaner goroutines now:\n%s", stuckAt, stuckStack))
 	}
 	vfStat(ntr+ngated, nontriv, vfRec{"gated_executions": ngated, "gates_established": gates, "events": total, "requests": reqs, "injected_faults": faults, "exec_ms_total": int(dur / time.Millisecond),
 		"trace_file": os.Getenv("VERIF_WORK") + "/" + name})
